@@ -243,3 +243,79 @@ Fixpoint chain_transfers (r : repo) (path_desc : list N) : list trrow :=
   | [] => []
   | id :: older => chain_transfers r older ++ match get_block r id with Some (_, b) => block_transfers b | None => [] end
   end.
+
+(* ---- cmd/thor/sync_logdb.go: the startup re-sync (model only: the functions live in package main) ----
+   As of /repo 47028d8 (F8 fixed: the synced case returns best+1 and the sync stops only when the position is past best). *)
+
+(* LogDB.NewestBlockID: MAX (as blobs) of the block ids of the last transfer row and of the last event row; zero if none *)
+Definition newest_block_id (db : logdb) : N :=
+  N.max (last (map tr_block (db_transfers db)) 0) (last (map er_block (db_events db)) 0).
+
+(* LogDB.HasBlockID: a row whose key is exactly (number, tx 0, log 0) and whose block id is id, in either table *)
+Definition has_block_id (db : logdb) (id : N) : option bool :=
+  match seq_of (num_of id) 0 0 with
+  | None => None
+  | Some s => Some (existsb (fun x => (tr_seq x =? s) && (tr_block x =? id)) (db_transfers db)
+                    || existsb (fun x => (er_seq x =? s) && (er_block x =? id)) (db_events db))
+  end.
+
+(* seekLogDBSyncPosition: walk down the best chain from min(newest, best-1) to the first block HasBlockID knows *)
+Fixpoint seek_walk (r : repo) (db : logdb) (fuel : nat) (h : N) : res N :=
+  match fuel with
+  | O => Fail
+  | S f =>
+    if num_of h =? 0 then Ok 1
+    else match has_block_id db h with
+         | None => Fail
+         | Some true => Ok (num_of h + 1)
+         | Some false => match get_summary r h with
+                         | Some s => seek_walk r db f (s_parent s)
+                         | None => Fail
+                         end
+         end
+  end.
+Definition seek_position (r : repo) (db : logdb) : res N :=
+  let best := r_best r in
+  if num_of best =? 0 then Ok 0
+  else
+    let newest := newest_block_id db in
+    if num_of newest =? 0 then Ok 0
+    else if newest =? best then Ok (num_of best + 1)
+    else
+      let start := if num_of best <=? num_of newest then num_of best - 1 else num_of newest in
+      match get_block_id r best start with
+      | Ok h => seek_walk r db (S (N.to_nat (num_of h))) h
+      | _ => Fail
+      end.
+
+(* pumpBlockAndReceipts + Write: the blocks of head's chain at heights i, i+1, ... (n of them) *)
+Fixpoint write_range (r : repo) (head : N) (n : nat) (i : N) (db : logdb) : option logdb :=
+  match n with
+  | O => Some db
+  | S n' =>
+    match get_block_id r head i with
+    | Ok id => match get_block r id with
+               | Some (_, b) => match write_block b db with
+                                | Some d => write_range r head n' (i + 1) d
+                                | None => None
+                                end
+               | None => None
+               end
+    | _ => None
+    end
+  end.
+
+(* syncLogDB (verify = false): position 0 means rebuild from block 1; truncate from the position, rewrite up to best *)
+Definition sync_logdb (r : repo) (db : logdb) : option logdb :=
+  match seek_position r db with
+  | Ok p =>
+    let bn := num_of (r_best r) in
+    if bn <? p then Some db
+    else
+      let p' := if p =? 0 then 1 else p in
+      match truncate p' db with
+      | Some d1 => write_range r (r_best r) (N.to_nat (bn + 1 - p')) p' d1
+      | None => None
+      end
+  | _ => None
+  end.
